@@ -8,7 +8,9 @@ package h
 import (
 	"fmt"
 	"math/rand"
+	"runtime"
 	"strings"
+	"sync/atomic"
 	"time"
 )
 
@@ -61,6 +63,34 @@ func famStreams(w *World, c *Case, rng *rand.Rand) {
 				}
 			}
 			plan.Parks[pt] = ds
+		}
+		// A goroutine about to put a window update on the carrier is held
+		// too (recognised by its stack: the credit callbacks are closures of
+		// createStream / allocateStream); such a goroutine holds no lock
+		// another goroutine could want in a clean run.
+		var cj atomic.Int64
+		cj.Store(rng.Int63())
+		plan.Fn = func(point string, n int) {
+			if point != "carrier.send.beforeLock" {
+				return
+			}
+			x := cj.Add(0x1e3779b97f4a7c15)
+			if (x>>40)&3 != 0 {
+				return
+			}
+			var pcs [24]uintptr
+			fr := runtime.CallersFrames(pcs[:runtime.Callers(2, pcs[:])])
+			for {
+				f, more := fr.Next()
+				if strings.Contains(f.Function, "createStream.func") || strings.Contains(f.Function, "allocateStream.func") {
+					w.Stat("credit_sends_parked", 1)
+					time.Sleep(time.Duration(1+(x>>50)&31) * time.Nanosecond)
+					return
+				}
+				if !more {
+					return
+				}
+			}
 		}
 		w.installYield(plan)
 		w.Stat("streams_with_sender_parks", 1)
